@@ -3,6 +3,7 @@
 package main
 
 import (
+	"net"
 	"encoding/base64"
 	"fmt"
 	"net/http"
@@ -240,6 +241,7 @@ func vC01Case(out *vEmitter, e *vEnv, v vC01Variant, redis bool, c vCred, target
 	if c.restore != nil {
 		c.restore()
 	}
+	t0c := time.Now().UnixNano()
 	res := e.serve(req)
 	// ---- observed class ----
 	class := fmt.Sprintf("other_%d", res.Status)
@@ -334,6 +336,82 @@ func vC01Case(out *vEmitter, e *vEnv, v vC01Variant, redis bool, c vCred, target
 		vL("proxy_serve", vY(epSym), vBool(v.skipButton), vBool(v.forceJSON), vBool(bypass), vStrs(v.emailDomains), vStrs(v.allowedGroups),
 			vIdentSXopt(c.bearer), vIdentSXopt(c.basic), vIdentSXopt(c.stored), vBool(ajax), vBool(api), vStrs(vg),
 			vBool(redis && c.cookie != "" && c.stored == nil && c.label != "ticket-for-deleted-key")))
+	// the whole composition on the request as sent (cookie store): bypass decision from the configured rules and the
+	// peer address, the stored credential from the presented cookies through the signed-cookie model
+	if !redis && res.Panic == nil {
+		var pcs []vNV
+		for _, ck := range req.Cookies() {
+			pcs = append(pcs, vNV{ck.Name, ck.Value})
+		}
+		o := e.opts.Cookie
+		// decode oracle: the validated value of the presented session cookie (first field, base64url) decodes to the
+		// identity this credential was issued for
+		var dtab []vsx
+		if c.stored != nil {
+			joined := ""
+			for _, ck := range pcs {
+				if ck.n == o.Name {
+					joined = ck.v
+				}
+			}
+			if joined == "" {
+				for i := 0; ; i++ {
+					found := false
+					for _, ck := range pcs {
+						if ck.n == fmt.Sprintf("%s_%d", o.Name, i) {
+							joined += ck.v
+							found = true
+							break
+						}
+					}
+					if !found {
+						break
+					}
+				}
+			}
+			if f := strings.SplitN(joined, "|", 2); len(f) == 2 {
+				if raw, err := base64.URLEncoding.DecodeString(f[0]); err == nil {
+					dtab = append(dtab, vL(vB(raw), vIdentSXopt(c.stored)))
+				}
+			}
+		}
+		var routesSX, mt []vsx
+		if v.skipRoute {
+			routesSX = append(routesSX, vL(vS("GET"), vBool(false), vI(0)))
+			mt = append(mt, vL(vI(0), vS(req.URL.Path), vBool(strings.HasPrefix(req.URL.Path, "/public"))))
+		}
+		var netsSX []vsx
+		if v.trustedIP {
+			for _, n := range e.opts.TrustedIPs {
+				var rn *net.IPNet
+				if strings.Contains(n, "/") {
+					_, rn, _ = net.ParseCIDR(n)
+				} else {
+					a := net.ParseIP(n)
+					bits := 128
+					if a.To4() != nil {
+						bits, a = 32, a.To4()
+					}
+					rn = &net.IPNet{IP: a, Mask: net.CIDRMask(bits, bits)}
+				}
+				ones, bits := rn.Mask.Size()
+				netsSX = append(netsSX, vL(vIPN(rn.IP), vI(int64(128-bits+ones))))
+			}
+		}
+		var ipt []vsx
+		if h, _, err := net.SplitHostPort(remote); err == nil {
+			if a := net.ParseIP(h); a != nil {
+				ipt = append(ipt, vL(vS(h), vSome(vIPN(a))))
+			}
+		}
+		t1 := time.Now().UnixNano()
+		out.Case("composed/"+v.name, true, vL(vY(class)),
+			vL("serve_request", vTable(vMacsFor(o.Secret, []string{o.Name}, pcs)), vCfgMain(&o), vNVsx(pcs), vI(t0c), vI(t1), vL(dtab...),
+				vBool(v.preflight), vL(routesSX...), vL(mt...), vL(vL(vS(req.URL.RequestURI()), vSome(vS(req.URL.Path)))), vL(netsSX...), vL(ipt...), vBool(false),
+				vL(vS(req.Method), vS(req.URL.RequestURI()), vS(""), vBool(false), vS(remote), vS("")),
+				vY(epSym), vBool(v.skipButton), vBool(v.forceJSON), vBool(true), vBool(true), vStrs(v.emailDomains), vStrs(v.allowedGroups),
+				vIdentSXopt(c.bearer), vIdentSXopt(c.basic), vBool(ajax), vBool(api), vStrs(vg)))
+	}
 	if discloses {
 		out.Stat("disclosing_responses", 1)
 	}
